@@ -1768,7 +1768,14 @@ func (n *node) unregisterProcess(p *process, reason error) {
 	n.RouteTerminatePID(p.pid, reason)
 	lib.VerifPoint(p.pid, "unreg:drained")
 	// drop the links and monitors this process created on other targets
-	n.targetManager.CleanupConsumer(p.pid)
+	linkTargets, monitorTargets := n.targetManager.CleanupConsumer(p.pid)
+	for _, target := range append(linkTargets, monitorTargets...) {
+		// a subscription of this process to a local event is gone: keep the
+		// subscriber counter of the event (and the producer's Stop notification) right
+		if ev, ok := target.(gen.Event); ok && ev.Node == n.name {
+			n.eventConsumerGone(ev)
+		}
+	}
 	lib.VerifPoint(p, "unregister:exit-signals-sent")
 
 	if p.application != system.Name {
@@ -1827,6 +1834,23 @@ func (n *node) unregisterProcess(p *process, reason error) {
 		app := v.(*application)
 		app.terminate(p.pid, reason)
 	}
+}
+
+// eventConsumerGone accounts for a subscriber that went away without UnlinkEvent/DemonitorEvent
+func (n *node) eventConsumerGone(ev gen.Event) {
+	value, exist := n.events.Load(ev)
+	if exist == false {
+		return
+	}
+	event := value.(*eventOwner)
+	c := atomic.AddInt32(&event.consumers, -1)
+	if event.notify == false || c > 0 {
+		return
+	}
+	options := gen.MessageOptions{
+		Priority: gen.MessagePriorityHigh,
+	}
+	n.RouteSendPID(n.corePID, event.producer, options, gen.MessageEventStop{Name: ev.Name})
 }
 
 func (n *node) isRunning() bool {
